@@ -137,6 +137,7 @@ def run(F, R):
     b6_restore_on_every_exit(F, R)
     b7_header_types(F, R)
     b3c_clone_preserves_addressing(F, R)
+    b3d_window_covers_cam(F, R)
 
 
 def b1_b2(F, R, b):
@@ -396,6 +397,48 @@ def b3c_clone_preserves_addressing(F, R):
             R.check(bad is None, 'B3', '%s:clone-preserves-addressing' % b['id'], site(sg, nd), 'every field of the clone derives from the same field of the original',
                     'configuration access clone: %s - accesses through the clone (bus enumeration) use another window / addressing mode than the root' % bad)
     R.count('cam_clones', n)
+
+
+def b3d_window_covers_cam(F, R):
+    """The memory-mapped accessor's word array covers the whole window its addressing mode spans: element count * 4 = the window size the
+    offset function's mode defines, so every offset the offset function accepts indexes inside the array (and none is cut off)."""
+    sizes = [b['id'] for b in F.bodies.values() if b['name'] == 'size' and b.get('impl_adt', '').endswith('::Cam') and F.handwritten(b)]
+    n = 0
+    for b in sorted(F.bodies.values(), key=lambda x: x['id']):
+        if 'transport::pci::bus' not in b['id'] or not F.handwritten(b) or b['kind'] not in ('AssocFn', 'Fn'):
+            continue
+        if not any(bl['term']['k'] == 'call' and 'slice_from_raw_parts' in bl['term'].get('fn', '') for bl in b['blocks']):
+            continue
+        sg = supergraph(F, b['id'], tag='flat', max_depth=0)
+        S = sg.sym
+        for c in sg.calls(lambda d: 'slice_from_raw_parts' in d.get('fn', '')):
+            cnt = S.operand(c.id, c.d['args'][1])
+            if not any(x[0] == 'call' and x[2] in sizes for x in subterms(cnt)):
+                continue
+            esz = 4 if any('u32' in x_ for x_ in c.d.get('substs', [])) else None
+            if esz is None:
+                continue
+            n += 1
+            bad = None
+            for wsize in (0x1000000, 0x10000000, 0x1000, 0x2004):
+                def leaf(t, wsize=wsize):
+                    if t[0] == 'call' and t[2] in sizes:
+                        return wsize
+                    raise Unfoldable(fmt(t)[:60])
+                try:
+                    got = Folder(leaf).ev(cnt)
+                except Unfoldable as e:
+                    bad = 'unfoldable: %s' % e
+                    break
+                if got != wsize // esz:
+                    bad = 'a window of %#x bytes is mapped as %#x words (%#x bytes): %s' % (wsize, got, got * esz, 'its last word(s) cannot be accessed' if got * esz < wsize else 'it extends past the window')
+                    break
+            if bad and bad.startswith('unfoldable'):
+                R.abstain('B3', '%s:window-covers-cam' % b['id'], bad, site(sg, c))
+                continue
+            R.check(bad is None, 'B3', '%s:window-covers-cam' % b['id'], site(sg, c), 'word count = window size / 4',
+                    'configuration access window: %s' % bad)
+    R.count('cam_windows', n)
 
 
 HEADER_KINDS = (('cardbus', 2), ('bridge', 1), ('standard', 0), ('normal', 0), ('general', 0))
